@@ -32,6 +32,55 @@ MANIFEST = {
 }
 
 
+def check_take_offsets(F, f):
+    import re
+    import summ2
+    probs = []
+    try:
+        sm = summ2.summarize(F, f)
+    except Exception as e:
+        return ["cannot summarise: %s" % e]
+    oks = [o for o in sm["outcomes"] if "=> Result::Ok(" in o["text"]]
+    if len(oks) != 2:
+        return ["expected two success outcomes (sentinel present / absent), found %d" % len(oks)]
+    seen = set()
+    for o in oks:
+        t = o["text"]
+        m = re.search(r"#(\d+) = cobs::decode_in_place_report\(arg1\)", t)
+        if not m:
+            probs.append("frame is not decoded with cobs::decode_in_place_report on the whole input")
+            continue
+        R = "okval(#%s)" % m.group(1)
+        if "cursor: as_ptr(arg1), end: (as_ptr(arg1) + %s.dst_used)" % R not in t:
+            probs.append("value is not decoded from the decoded prefix s[..dst_used]")
+        m2 = re.search(r"=> Result::Ok\(\(okval\(#\d+\), arg1\[(.*)\.\.len\(arg1\)\]\)\)$", t)
+        if not m2:
+            probs.append("returned remainder is not a tail of the input")
+            continue
+        lo = m2.group(1)
+        probe = "index(after#%s(*arg1), %s.src_used)" % (m.group(1), R)
+        inb = "len(arg1) - %s.src_used" % R
+        if lo == "(%s.src_used + 1)" % R:
+            seen.add("present")
+            for c in o["when"]:
+                d = {l[1]: l[2] for l in c}
+                if d.get(probe) != [[0, 0]] or d.get(inb) != [[1, None]]:
+                    probs.append("remainder skips one byte although no zero sentinel was seen at src_used (condition: %s)" % c)
+        elif lo == "%s.src_used" % R:
+            seen.add("absent")
+            for c in o["when"]:
+                d = {l[1]: l[2] for l in c}
+                zero_possible = probe not in d or any((lo_ is None or lo_ <= 0) and (hi_ is None or hi_ >= 0) for lo_, hi_ in d[probe])
+                inb_possible = inb not in d or any(hi_ is None or hi_ >= 1 for lo_, hi_ in d[inb])
+                if zero_possible and inb_possible:
+                    probs.append("remainder starts at src_used although a zero sentinel may follow the frame (condition: %s)" % c)
+        else:
+            probs.append("remainder starts at offset %s, expected src_used%s" % (lo, " (+1 after the sentinel)"))
+    if seen != {"present", "absent"} and not probs:
+        probs.append("sentinel-present and sentinel-absent cases are not both handled")
+    return probs
+
+
 def run(run_, ctx):
     run_groups(run_, ctx, [
         ("E", "ser_cobs", None, "COBS encoder flavor"),
@@ -93,60 +142,14 @@ def run(run_, ctx):
                 probs.append("arm %s does not follow the cobs contract (index/modify value/pushed bytes and their order)" % a)
         run_.check(not probs, "EX", "Cobs::try_push payload flow", probs[0] if probs else "all three PushResult arms follow the contract", f.where(), found=probs)
     run_.floor("EX", 1)
-    # semantic: remainder offset identity in take_from_bytes_cobs
+    # semantic: remainder offset identity in take_from_bytes_cobs, read off the function's semantic summary (canonical slices:
+    # however the two halves are split, the returned remainder is printed as arg1[lo..len(arg1)] with lo in linear normal form)
     f = [x for x in pc.fns if x.def_ == "de::take_from_bytes_cobs"]
     if len(f) != 1:
         run_.bad("DX", "take_from_bytes_cobs", "not found")
     else:
         f = f[0]
-        eng = sym.Engine(F, max_visits=2)
-        probs = []
-        n_ok = 0
-        for p in eng.run(f):
-            if p.status != "return" or not (p.ret[0] == "agg" and p.ret[3] == "Ok"):
-                continue
-            n_ok += 1
-            evs = tbl.residual_calls(p)
-            rep = [e for e in evs if e["key"] == "cobs::decode_in_place_report"]
-            sp = [e for e in evs if e["key"].endswith("::split_at_mut")]
-            get = [e for e in evs if e["key"].endswith("<impl [T]>::get")]
-            eq = [e for e in evs if e["key"].endswith("PartialEq::eq")]
-            if len(rep) != 1 or len(sp) != 2 or len(get) != 1 or len(eq) != 1:
-                probs.append("unexpected structure (report/get/compare/two splits)")
-                continue
-            R = ("okval", norm(rep[0]["result"]))
-            src = ("getf", R, "src_used")
-            dst = ("getf", R, "dst_used")
-            if norm(get[0]["args"][1]) != src:
-                probs.append("sentinel probe is not at index src_used")
-            # which branch: sentinel present?
-            present = None
-            for cond, truth, kind in p.pc:
-                if norm(cond) == norm(eq[0]["result"]):
-                    present = truth
-            if present is None:
-                probs.append("sentinel comparison does not steer the split")
-                continue
-            s0 = norm(sp[0]["args"][1])
-            s1 = norm(sp[1]["args"][1])
-            if s0 != dst:
-                probs.append("first split is at %s, expected dst_used" % sym.show(s0))
-            if norm(sp[1]["args"][0]) != ("getf", norm(sp[0]["result"]), "1"):
-                probs.append("second split is not applied to the tail of the first")
-            try:
-                tot = lin.ge(("bin", "Add", s0, s1, "usize"), ("bin", "Add", src, sym.C(1 if present else 0, "usize"), "usize"))
-                if tot.co or tot.c != 0:
-                    probs.append("remainder starts at offset %s+%s, expected src_used%s" % (sym.show(s0), sym.show(s1), "+1 (after the sentinel)" if present else ""))
-            except Exception as e:
-                probs.append("split offsets not linear: %s" % e)
-            pay = p.ret[5][0]
-            fb = [e for e in evs if e["key"] == "de::from_bytes"]
-            if len(fb) != 1 or norm(fb[0]["args"][0]) != ("getf", norm(sp[0]["result"]), "0"):
-                probs.append("value is not decoded from the decoded prefix s[..dst_used]")
-            if not (pay[0] == "agg" and norm(pay[5][1]) == ("getf", norm(sp[1]["result"]), "1")):
-                probs.append("returned remainder is not the tail after the second split")
-        if n_ok != 2:
-            probs.append("expected two success paths (sentinel present / absent), found %d" % n_ok)
+        probs = check_take_offsets(F, f)
         run_.check(not probs, "DX", "take_from_bytes_cobs offsets", probs[0] if probs else "remainder = s[src_used (+1 if sentinel)..], value from s[..dst_used]", f.where(), found=probs)
     run_.floor("DX", 1)
     run_.explanation = (
